@@ -559,6 +559,10 @@ func (c *fctx) forStmt(x *ast.ForStmt, en *env, lc *lctx, next kont) string {
 		if x.Cond != nil {
 			c.checkOrder(x.Cond)
 			c.t.assigned(x.Cond, set)
+			// the loop combinator's condition is S -> M bool: an assignment made while evaluating it would be lost
+			if len(set) > 0 {
+				c.t.fail(x.Cond, "loop condition that assigns a variable (a call of a method that writes its receiver, an atomic store)")
+			}
 		}
 		c.t.assigned(x.Body, set)
 		if x.Post != nil {
